@@ -2779,7 +2779,10 @@ func (uconn *UConn) ApplyPreset(p *ClientHelloSpec) error {
 	uconn.HandshakeState.Hello = privateHello.getPublicPtr()
 	if clientKeySharePrivate != nil {
 		uconn.HandshakeState.State13.KeyShareKeys = clientKeySharePrivate.ToPublic()
-	} else {
+	} else if uconn.HandshakeState.State13.KeyShareKeys == nil || !keySharesAlreadyGenerated(p.Extensions) {
+		// When the same spec is applied again (BuildHandshakeStateWithoutSession followed by
+		// BuildHandshakeState), its key shares still carry the public keys generated the first
+		// time and none is generated below: the matching private keys must be kept.
 		uconn.HandshakeState.State13.KeyShareKeys = &KeySharePrivateKeys{}
 	}
 	uconn.echCtx = ech
@@ -2956,6 +2959,28 @@ func (uconn *UConn) ApplyPreset(p *ClientHelloSpec) error {
 	}
 
 	return nil
+}
+
+// keySharesAlreadyGenerated reports whether the key_share extension of a spec carries key
+// exchange data for every non-GREASE share, i.e. ApplyPreset will not generate any key for it.
+func keySharesAlreadyGenerated(exts []TLSExtension) bool {
+	found := false
+	for _, e := range exts {
+		ks, ok := e.(*KeyShareExtension)
+		if !ok {
+			continue
+		}
+		for _, share := range ks.KeyShares {
+			if isGREASEUint16(uint16(share.Group)) {
+				continue
+			}
+			if len(share.Data) <= 1 {
+				return false
+			}
+			found = true
+		}
+	}
+	return found
 }
 
 func (uconn *UConn) generateRandomizedSpec() (ClientHelloSpec, error) {
